@@ -95,13 +95,20 @@ def _modules():
     return m
 
 
-def _cards(nfs, with_masses=False):
-    """real cards; mugrid = [(mu_i, nf_i)] with mu_i symbolic > 0 in the given (listing) order"""
+def _cards(nfs, alias=None):
+    """real cards; mugrid = [(mu_i, nf_i)] with mu_i symbolic > 0 in the given (listing) order.
+    alias {j: i}: entry j (another nf) carries the very same scale as entry i -- the same symbol *object*, because Python
+    dictionaries hash symbolic values by identity: a scale shared by two nf patches has to be one object to behave like two
+    equal floats do in the real code (equality of distinct symbols decided by the solver cannot reach dict lookups)."""
     from ekobox import cards
 
+    alias = alias or {}
     th = cards.example.theory()
     op = cards.example.operator()
     mus = [SR.var("mu%d" % i) for i in range(len(nfs))]
+    for j, i in alias.items():
+        assert nfs[i] != nfs[j]
+        mus[j] = mus[i]
     for mu in mus:
         assume(mu - 1, ">0")  # scales between 1 GeV and 10 TeV
         assume(10000 - mu, ">0")
@@ -109,7 +116,9 @@ def _cards(nfs, with_masses=False):
     # non-linear feasibility question each time the code compares mu_i^2 with mu_j^2
     for i in range(len(mus)):
         for j in range(i + 1, len(mus)):
-            zi, zj = z3.Real("mu%d" % i), z3.Real("mu%d" % j)
+            if mus[i] is mus[j]:
+                continue
+            zi, zj = z3.Real(str_name(mus[i])), z3.Real(str_name(mus[j]))
             S.assume_z3((zi < zj) == (zi * zi < zj * zj))
             S.assume_z3((zi == zj) == (zi * zi == zj * zj))
     for i in range(len(mus)):
@@ -239,18 +248,18 @@ def _validate(log, m, nfs):
         log.validate()
 
 
-def case_evolve(log, nfs, target, shuffle, members):
+def case_evolve(log, nfs, target, shuffle, members, alias=None):
     """evolve_pdfs end to end on stand-ins; target: None | number of explicit target-grid points"""
     m = _modules()
     log.encode(m.evol.evolve_pdfs, m.evol.collect_blocks, m.utils.regroup_evolgrid, m.genpdf.generate_block, m.info.build, m.info.build_alphas)
-    rk = {"nfs": list(nfs), "target": target, "members": members}
+    rk = {"nfs": list(nfs), "target": target, "members": members, "alias": alias}
     seed0 = log.rng.randint(0, 10**9)
     outcomes = {}
-    _sampler_mu = _mk_sampler(nfs)  # noqa: F841
+    _sampler_mu = _mk_sampler(nfs, alias)  # noqa: F841
 
     def run():
         CouplingsRec.made = []
-        th, op, mus = _cards(nfs)
+        th, op, mus = _cards(nfs, alias)
         nx = 2
         xs = [SR.var("x%d" % i) for i in range(nx)]
         ts = [SR.var("t%d" % i) for i in range(target)] if target else None
@@ -261,7 +270,8 @@ def case_evolve(log, nfs, target, shuffle, members):
         op.xgrid = XG(xs)
         tg = XG(ts) if target else None
         wx = ts if target else xs
-        evolgrid = [(mu * mu, nf) for mu, nf in zip(mus, nfs)]
+        q2_of = {}  # one Q^2 object per scale symbol: a scale shared by two nf patches is the same dictionary key, as equal floats are
+        evolgrid = [(q2_of.setdefault(id(mu), mu * mu), nf) for mu, nf in zip(mus, nfs)]
         if shuffle:
             random.Random(seed0).shuffle(evolgrid)
         dumped = []
@@ -467,7 +477,7 @@ def _sampler_mu(rng):
     return p
 
 
-def _mk_sampler(nfs):
+def _mk_sampler(nfs, alias=None):
     """candidate points inside the domain: scales consistent with the nf blocks (no overlap), listed in a random order within
     each block -- every second candidate in descending order, the arrangement the listing-order obligations are sensitive to"""
     state = {"n": 0}
@@ -487,6 +497,10 @@ def _mk_sampler(nfs):
             vals = vals[::-1] if state["n"] % 2 else rng.sample(vals, len(vals))
             for i, v in zip(idx, vals):
                 p["mu%d" % i] = v
+        for j, i in (alias or {}).items():
+            # the shared scale sits on the boundary between the two nf blocks
+            a, b = sorted((nfs[i], nfs[j]))
+            p["mu%d" % i] = p["mu%d" % j] = cuts[keys.index(a)]
         return p
 
     return sampler
@@ -499,13 +513,15 @@ def _sampler_th(rng):
 # ---------------------------------------------------------------------------
 # replays on the REAL code
 # ---------------------------------------------------------------------------
-def _real_cards(point, nfs):
+def _real_cards(point, nfs, alias=None):
     from eko import interpolation
     from ekobox import cards
 
     th = cards.example.theory()
     op = cards.example.operator()
     mus = [getv(point, "mu%d" % i, None) for i in range(len(nfs))]
+    for j, i in (alias or {}).items():
+        mus[j] = mus[i]
     if any(mu is None or not (1.0 < mu < 1e4) for mu in mus):
         return None
     mus = [round(mu, 3) for mu in mus]
@@ -573,7 +589,7 @@ class _ToyPDF:
         return x ** 0.5 * (1 - x) ** 2 * (1 + 0.1 * abs(pid) + 0.3 * self.k) + 0.01 * self.k
 
 
-def replay_evolve(point, nfs, target, members, what="run"):
+def replay_evolve(point, nfs, target, members, what="run", alias=None):
     """real evolve_pdfs on a real (synthetic) EKO archive; the written files are parsed back"""
     import os
     import pathlib
@@ -586,7 +602,7 @@ def replay_evolve(point, nfs, target, members, what="run"):
     from eko.io.struct import EKO, Operator
     from ekobox import apply, evol_pdf
 
-    r = _real_cards(point, nfs)
+    r = _real_cards(point, nfs, alias)
     if r is None:
         return None
     th, op, mus, by_nf, keys, overlap = r
@@ -762,7 +778,7 @@ def main():
     chk.explanation = ("Partial claim: decided are the info-file / block logic of evolve_pdfs (which grids, ranges, members, flavours and alpha_s knots are written, "
                        "and with which arguments the alpha_s provider is built) by symbolic execution of the real functions on symbolic cards. Not decided: the %.8e/%.6e text "
                        "round trip of dump_blocks/load, YAML layout of the info file, LHAPDF parsing, the numerical alpha_s values themselves, QMin/QMax rounding to 4 digits.")
-    chk.bounds = ["mugrid: 1-3 points over nf in {4,5} (quick: 6 listing patterns, thorough: all 14 of length <= 3), scales symbolic in (1, 10^4) GeV in arbitrary listing order, distinct within one nf",
+    chk.bounds = ["mugrid: 1-3 points over nf in {4,5} (quick: 6 listing patterns, thorough: all 14 of length <= 3), scales symbolic in (1, 10^4) GeV in arbitrary listing order, distinct within one nf; a scale shared by the nf=4 and nf=5 patches (allowed by LHAPDF) in dedicated cases, as one shared symbol",
                   "x grids: card grid 2 points, explicit target grid 2-3 points, symbolic increasing; 1-2 members; EKO evolution points = card evolution points (listing order shuffled)",
                   "alpha_s differential: masses, matching ratios, xif symbolic > 0 (masses increasing); schemes POLE, MSBAR with m(m) given, MSBAR with masses at another scale; "
                   "scale variation None / exponentiated / expanded; %s" % ("all 8 evolution methods" if thorough else "3 evolution methods")]
@@ -779,11 +795,14 @@ def main():
         pats = [(4,), (5, 5), (5, 4), (4, 5, 4), (5, 5, 4), (4, 4, 5)]
     for p in pats:
         chk.case("build.%s" % "".join(map(str, p)), case_build, nfs=list(p))
-    ev = [((5, 4, 4), None, True, 2), ((4, 5), None, False, 1), ((5, 4), 2, True, 1), ((4, 4), 3, False, 2)]
+    ev = [((5, 4, 4), None, True, 2, None), ((4, 5), None, False, 1, None), ((5, 4), 2, True, 1, None), ((4, 4), 3, False, 2, None),
+          ((4, 5), None, False, 1, {1: 0}), ((4, 4, 5), None, True, 1, {2: 1})]  # the last two: one scale shared by the nf=4 and nf=5 patches
     if thorough:
-        ev += [((4, 5, 4), None, True, 1), ((5, 5, 4), 2, False, 2), ((5,), None, False, 1), ((4, 5, 5), 3, True, 1)]
-    for p, tg, sh, mem in ev:
-        chk.case("evolve.%s.%s.m%d" % ("".join(map(str, p)), "t%d" % tg if tg else "cardgrid", mem), case_evolve, nfs=list(p), target=tg, shuffle=sh, members=mem)
+        ev += [((4, 5, 4), None, True, 1, None), ((5, 5, 4), 2, False, 2, None), ((5,), None, False, 1, None), ((4, 5, 5), 3, True, 1, None),
+               ((5, 4, 4), 2, True, 2, {0: 2}), ((4, 5, 5), None, False, 1, {1: 0}), ((5, 4), 3, True, 1, {0: 1})]
+    for p, tg, sh, mem, al in ev:
+        chk.case("evolve.%s.%s.m%d%s" % ("".join(map(str, p)), "t%d" % tg if tg else "cardgrid", mem, ".shared%s" % "".join("%d%d" % kv for kv in al.items()) if al else ""),
+                 case_evolve, nfs=list(p), target=tg, shuffle=sh, members=mem, alias=al)
     evm = ["iterate-exact", "truncated", "perturbative-expanded"]
     if thorough:
         evm = ["iterate-exact", "iterate-expanded", "perturbative-exact", "perturbative-expanded", "truncated", "ordered-truncated", "decompose-exact", "decompose-expanded"]
